@@ -600,6 +600,9 @@ type aStep struct {
 	EnvObjs []aObj `json:"env_objs,omitempty"`
 	EnvSets []aSet `json:"env_sets,omitempty"`
 	EnvGone []aOID `json:"env_gone,omitempty"` // ObjectSets the environment removed
+	// garbage collection after an out-of-band deletion: phase objects and member objects the environment removed
+	EnvPhasesGone []aOID `json:"env_phases_gone,omitempty"`
+	EnvKeysGone   []aKey `json:"env_keys_gone,omitempty"`
 	NextRV  int64  `json:"next_rv"`
 	NextUID int64  `json:"next_uid"`
 }
@@ -664,7 +667,7 @@ func (cs *controllerSet) runPhase(t aOID) aStep {
 
 // A third-party edit of an ObjectSet between controller passes.
 type aSetOp struct {
-	Op     string `json:"op"` // life | delete | delete-orphan
+	Op     string `json:"op"` // life | delete | delete-orphan | gc-phases
 	Target aOID   `json:"target"`
 	Life   int    `json:"life,omitempty"`
 }
@@ -799,6 +802,50 @@ func applySetOp(s *Store, op aSetOp) (aSet, bool, error) {
 	return a, false, err
 }
 
+// gcPhases: a third party deletes every phase object controlled by the ObjectSet (without going through the
+// phase controller) and the garbage collector removes the member objects those phase objects controlled.
+func gcPhases(s *Store, t aOID) ([]aOID, []aKey) {
+	pg, kg := []aOID{}, []aKey{}
+	uids := map[string]bool{}
+	setUID := "u" + strconv.Itoa(t.UID)
+	for _, k := range s.RawKeys() {
+		if !isPhaseKey(k) {
+			continue
+		}
+		m := s.RawGet(k)
+		u := &unstructured.Unstructured{Object: m}
+		own := false
+		for _, r := range u.GetOwnerReferences() {
+			if r.Controller != nil && *r.Controller && string(r.UID) == setUID {
+				own = true
+			}
+		}
+		if !own {
+			continue
+		}
+		uids[string(u.GetUID())] = true
+		if a := optOSP(m); a != nil {
+			pg = append(pg, a.aOID)
+		}
+		s.RawDelete(k)
+	}
+	for _, k := range s.RawKeys() {
+		m := s.RawGet(k)
+		u := &unstructured.Unstructured{Object: m}
+		if gkOf(u.GetAPIVersion(), u.GetKind()) == 0 || isEnvNamespace(m) {
+			continue
+		}
+		for _, r := range u.GetOwnerReferences() {
+			if r.Controller != nil && *r.Controller && uids[string(r.UID)] {
+				kg = append(kg, abstractKey(k))
+				s.RawDelete(k)
+				break
+			}
+		}
+	}
+	return pg, kg
+}
+
 func livePhases(s *Store) []aOID {
 	out := []aOID{}
 	for _, p := range abstractPhases(s) {
@@ -847,6 +894,12 @@ func runDelegation(sc *delegationScenario, local bool) (*delegationRun, error) {
 		if len(stage.Ops) > 0 {
 			st := aStep{Actor: "env", Res: "done", Events: []aMetaEvent{}}
 			for _, op := range stage.Ops {
+				if op.Op == "gc-phases" {
+					pg, kg := gcPhases(s, op.Target)
+					st.EnvPhasesGone = append(st.EnvPhasesGone, pg...)
+					st.EnvKeysGone = append(st.EnvKeysGone, kg...)
+					continue
+				}
 				a, gone, err := applySetOp(s, op)
 				if err != nil {
 					return nil, err
